@@ -365,7 +365,7 @@ class Host:
         elif k == 'open':
             eng.ctx_open(o, op['kind'])
         elif k == 'close':
-            eng.ctx_close(o)
+            eng.ctx_close(o, bool(op.get('failing')))
 
 
 # ----------------------------------------------------------------------------- engines
@@ -465,7 +465,7 @@ class ModelEngine:
     def ctx_open(self, oid, kind):
         self.m.ctx_open(oid, kind)
 
-    def ctx_close(self, oid):
+    def ctx_close(self, oid, failing=False):
         return self.m.ctx_close(oid)
 
 
@@ -611,11 +611,18 @@ class RealEngine:
         cm.__enter__()
         self.ctx.setdefault(oid, []).append(cm)
 
-    def ctx_close(self, oid):
+    def ctx_close(self, oid, failing=False):
         st = self.ctx.get(oid)
         if not st:
             return False
-        st.pop().__exit__(None, None, None)
+        if failing:
+            # the body of the context is left by an exception: an exit like any other
+            try:
+                st.pop().__exit__(RuntimeError, RuntimeError('the body of the context failed'), None)
+            except RuntimeError:
+                pass
+        else:
+            st.pop().__exit__(None, None, None)
         return True
 
 
@@ -861,7 +868,7 @@ class DispatchWorld:
                 ops.append({'op': 'open', 'o': o, 'kind': weighted(rng, [('batch', 3), ('discard', 1)])})
             elif k == 'close':
                 depth[o] -= 1
-                ops.append({'op': 'close', 'o': o})
+                ops.append({'op': 'close', 'o': o, 'failing': rng.random() < 0.25})
         return {'cfg': cfg, 'ops': ops}
 
     # -- shrink support ------------------------------------------------------------------------------
